@@ -2,7 +2,8 @@
 
 Real files in a scratch tree; ``builtins.open`` / ``io.open`` are wrapped by a
 pass-through that injects faults only for paths under the scratch root and
-only while a plan is installed:
+only while a plan is installed (``os.open`` too: a file object made with
+``os.fdopen`` from a descriptor opened under the root is treated alike):
 
   write side   crash@(file i, byte k)   k bytes reach the file, then SimCrash
                eio/enospc@(file i, byte k)  short write, then OSError
@@ -22,6 +23,7 @@ from .core import SimCrash
 
 _REAL_OPEN = builtins.open
 _REAL_IO_OPEN = io.open
+_REAL_OS_OPEN = os.open
 
 ERRNOS = {'EACCES': errno.EACCES, 'ENOSPC': errno.ENOSPC,
           'EMFILE': errno.EMFILE, 'EISDIR': errno.EISDIR,
@@ -150,6 +152,7 @@ class FaultFS:
         self.nread = 0
         self.log = []          # (side, index, relative path)
         self.fired_log = []
+        self.fdmap = {}        # descriptors from os.open() under the root
 
     # plan lookup ---------------------------------------------------------
     def write_fault(self, index):
@@ -178,9 +181,33 @@ class FaultFS:
         self.fired_log.append({k: v for k, v in flt.items() if k != '_fired'})
 
     # the seam ------------------------------------------------------------
+    def os_open(self, path, flags, *args, **kwargs):
+        '''Code that opens through os.open() + os.fdopen(): the descriptor is
+        remembered, so that the file object made from it gets the faults of
+        the plan like one made by open(path).'''
+        full = self._inside(path) if 'dir_fd' not in kwargs else None
+        writing = bool(flags & (os.O_WRONLY | os.O_RDWR))
+        if full is not None:
+            side = 'w' if writing else 'r'
+            flt = self.open_fault(side, self.nwrite if writing
+                                  else self.nread)
+            if flt is not None:
+                self.nwrite += writing
+                self.nread += not writing
+                self.log.append((side, flt['file'], full[len(self.root):]))
+                self.fired(flt)
+                code = ERRNOS[flt.get('errno', 'EACCES')]
+                raise OSError(code, os.strerror(code), str(path))
+        fdesc = _REAL_OS_OPEN(path, flags, *args, **kwargs)
+        if full is not None:
+            self.fdmap[fdesc] = full
+        else:
+            self.fdmap.pop(fdesc, None)
+        return fdesc
+
     def _inside(self, file):
         if isinstance(file, int):
-            return None
+            return self.fdmap.pop(file, None)
         try:
             path = os.fspath(file)
         except TypeError:
@@ -204,7 +231,8 @@ class FaultFS:
         else:
             self.nread += 1
         self.log.append((side, index, full[len(self.root):]))
-        flt = self.open_fault(side, index)
+        flt = self.open_fault(side, index) \
+            if not isinstance(file, int) else None
         if flt is not None:
             self.fired(flt)
             code = ERRNOS[flt.get('errno', 'EACCES')]
@@ -225,6 +253,13 @@ def _dispatch(file, mode='r', *args, **kwargs):
     return fs.open(file, mode, *args, **kwargs)
 
 
+def _os_dispatch(path, flags, *args, **kwargs):
+    fs = _ACTIVE
+    if fs is None:
+        return _REAL_OS_OPEN(path, flags, *args, **kwargs)
+    return fs.os_open(path, flags, *args, **kwargs)
+
+
 def installed():
     return builtins.open is _dispatch
 
@@ -234,11 +269,13 @@ def install():
     active and for every path outside the active plan's root.'''
     builtins.open = _dispatch
     io.open = _dispatch
+    os.open = _os_dispatch
 
 
 def uninstall():
     builtins.open = _REAL_OPEN
     io.open = _REAL_IO_OPEN
+    os.open = _REAL_OS_OPEN
 
 
 class active:
